@@ -123,4 +123,72 @@ example : registerRESTCheck {} "DELETE" 3 3 = .error .method ∧ registerRESTChe
     registerRESTCheck { in0 := .ptrStruct .oneInt } "GET" 3 3 = .ok (some .int) :=
   ⟨by rfl, by rfl, by rfl, by rfl, by rfl⟩
 
+
+theorem tdiv_two (a : Nat) : Int.tdiv ((a : Int) + 1) 2 = ((a : Int) + 1) / 2 := by
+  rw [Int.tdiv_eq_ediv_of_nonneg (by omega)]
+
+/-- **all the numbers of `GetList` are computed with the translated decisions** (round 7, the translator's
+`"rich"` extracts): the default `(len(nodes)+1)/2`, the three option tests `po.Parallel > 0 && po.Parallel <
+parallel`, `po.StartNode > 0 && po.StartNode < len(nodes)`, `po.AskNodes > 0 && po.AskNodes < len(nodes)` —
+none of which panics for a non-nil `po` — and the final cut; nothing of `getListParams` is a hand
+transcription any more (`>= 0`, `<=`, a swapped field, `len(nodes)/2` break it) -/
+theorem c14_gen_getlist_numbers_full (nodes : List Nat) (o : ParOpts) :
+    Gen.C14.GetList_parallel0 nodes = some (((nodes.length : Int) + 1) / 2) ∧
+    (∃ b1 b2 b3, Gen.C14.GetList_takeParallel (some o.toGen) (((nodes.length : Int) + 1) / 2) = some b1 ∧
+      Gen.C14.GetList_takeStart (some o.toGen) nodes = some b2 ∧
+      Gen.C14.GetList_takeAsk (some o.toGen) nodes = some b3 ∧
+      getListParams nodes.length (some o) =
+        (let parallel0 : Int := ((nodes.length : Int) + 1) / 2
+         let parallel := if b1 then o.parallel else parallel0
+         let startNode := if b2 then o.startNode else 0
+         let askNodes := if b3 then o.askNodes else (nodes.length : Int) - startNode
+         (⟨if Gen.C14.GetList_fewerAsked askNodes parallel then askNodes else parallel, askNodes, startNode⟩ : ListParams))) := by
+  refine ⟨?_, ?_⟩
+  · simp only [Gen.C14.GetList_parallel0, Gen.Rt.idiv, Gen.Rt.len, Int.ofNat_eq_natCast]
+    rw [if_neg (by decide), tdiv_two]
+  · refine ⟨decide (o.parallel > 0 ∧ o.parallel < ((nodes.length : Int) + 1) / 2),
+      decide (o.startNode > 0 ∧ o.startNode < (nodes.length : Int)),
+      decide (o.askNodes > 0 ∧ o.askNodes < (nodes.length : Int)), ?_, ?_, ?_, ?_⟩
+    · simp only [Gen.C14.GetList_takeParallel, ParOpts.toGen]
+      by_cases h1 : o.parallel > 0 <;> by_cases h2 : o.parallel < ((nodes.length : Int) + 1) / 2 <;> simp [h1, h2]
+    · simp only [Gen.C14.GetList_takeStart, ParOpts.toGen, Gen.Rt.len, Int.ofNat_eq_natCast]
+      by_cases h1 : o.startNode > 0 <;> by_cases h2 : o.startNode < (nodes.length : Int) <;> simp [h1, h2]
+    · simp only [Gen.C14.GetList_takeAsk, ParOpts.toGen, Gen.Rt.len, Int.ofNat_eq_natCast]
+      by_cases h1 : o.askNodes > 0 <;> by_cases h2 : o.askNodes < (nodes.length : Int) <;> simp [h1, h2]
+    · simp [getListParams, Gen.C14.GetList_fewerAsked]
+
+/-- **the walk of `collect` is the translated index expression**: for a start inside the roster and a
+permutation entry `perm[i] = p`, the translated `nodes[(startNode+perm[i])%len(nodes)]` does not panic
+and is the node `collect` takes -/
+theorem c14_gen_walk (nodes : List Nat) (start p : Nat) (perm : List Int) (i : Nat)
+    (hi : perm[i]? = some (p : Int)) (hn : 0 < nodes.length) :
+    Gen.C14.GetList_node nodes (start : Int) perm (i : Int) =
+      some (nodes.getD ((start + p) % nodes.length) 0) := by
+  have hidx : Gen.Rt.idx perm (i : Int) = some (p : Int) := by
+    unfold Gen.Rt.idx; rw [if_neg (by omega)]; simpa using hi
+  have hlen : Gen.Rt.len nodes = (nodes.length : Int) := rfl
+  have hmod : Gen.Rt.imod ((start : Int) + (p : Int)) (Gen.Rt.len nodes) = some (((start + p) % nodes.length : Nat) : Int) := by
+    unfold Gen.Rt.imod
+    rw [hlen]
+    have hne : ¬ ((nodes.length : Int) = 0) := by omega
+    rw [if_neg hne, Int.tmod_eq_emod_of_nonneg (by omega)]
+    congr 1
+  have hlt : (start + p) % nodes.length < nodes.length := Nat.mod_lt _ hn
+  have hget : Gen.Rt.idx nodes (((start + p) % nodes.length : Nat) : Int) = some (nodes.getD ((start + p) % nodes.length) 0) := by
+    unfold Gen.Rt.idx
+    rw [if_neg (by omega)]
+    simp only [Int.toNat_natCast, List.getElem?_eq_getElem hlt, List.getD_eq_getElem?_getD, Option.getD_some]
+  unfold Gen.C14.GetList_node
+  rw [hidx]; simp only
+  rw [hmod]; simp only
+  rw [hget]
+
+/-- the final slash of a route: exactly the two GET kinds with a resource identifier (the `iota` constants
+as evaluated by the translator: `intGET = 2`, `sliceGET = 3`) -/
+theorem c14_gen_final_slash (k : Int) :
+    Gen.C14.RegisterREST_finalSlash k = decide (k = 2 ∨ k = 3) ∧ Gen.C14.intGET = 2 ∧ Gen.C14.sliceGET = 3 := by
+  refine ⟨?_, rfl, rfl⟩
+  simp only [Gen.C14.RegisterREST_finalSlash, Gen.C14.intGET, Gen.C14.sliceGET]
+  by_cases h2 : k = 2 <;> by_cases h3 : k = 3 <;> simp [h2, h3]
+
 end C14
